@@ -82,6 +82,19 @@ def parse_date(string, scale):
     return out
 
 
+def in_scale(date, scale):
+    """Express a date in the time scale of the message (its TIME_SYSTEM)
+
+    A message has a single TIME_SYSTEM; a date labelled in another scale is
+    converted, so that the instant it designates is the one read back.
+    """
+
+    if date.scale.name != scale.name:
+        date = date.change_scale(scale.name)
+
+    return date
+
+
 def detect2load(string):
     """Detect the type and format of the CCSDS file
 
